@@ -238,6 +238,17 @@ def run_spec(spec, props=("C14",)):
             res = {}
             for k, si in outs.items():
                 res[k + suffix] = {inv[v]: (list(si.node_history(v)[0]), list(si.node_history(v)[1])) for v in G.nodes()}
+            if not suffix:
+                # the degenerate ends of bond percolation are deterministic: p=0 keeps the nodes and no edge, p=1 everything
+                for pp in (0, 1, 0.0, 1.0):
+                    H = EoN.percolate_network(G, pp)
+                    res["percolate_network(p=%r)" % pp] = (sorted(inv[v] for v in H.nodes()), sorted(tuple(sorted((inv[a], inv[b]))) for a, b in H.edges()))
+                    si = EoN.percolation_based_discrete_SIR(G, pp, initial_infecteds=i0, initial_recovereds=r0 or None, return_full_data=True)
+                    res["percolation_based_discrete_SIR(p=%r)" % pp] = {inv[v]: (list(si.node_history(v)[0]), list(si.node_history(v)[1])) for v in G.nodes()}
+                    si = EoN.basic_discrete_SIR(G, pp, initial_infecteds=i0, initial_recovereds=r0 or None, return_full_data=True)
+                    res["basic_discrete_SIR(p=%r)" % pp] = {inv[v]: (list(si.node_history(v)[0]), list(si.node_history(v)[1])) for v in G.nodes()}
+                    si = EoN.basic_discrete_SIS(G, pp, initial_infecteds=i0, tmax=4, return_full_data=True)
+                    res["basic_discrete_SIS(p=%r)" % pp] = {inv[v]: (list(si.node_history(v)[0]), list(si.node_history(v)[1])) for v in G.nodes()}
             return res
         # a second, tie-prone rule set (integer delays and durations: transmissions landing exactly on recoveries,
         # simultaneous infections); the unchanged code is order independent under these too
